@@ -21,7 +21,7 @@ KINDS = {
 }
 EXTRA_KINDS = {"sqlite_b1": ("sqlite", "sqlite://out.db?batch_size=1"), "sqlite_b2": ("sqlite", "sqlite://out.db?batch_size=2"), "sqlite_b3": ("sqlite", "sqlite://out.db?batch_size=3"),
                "streambz2": ("streamgz", "out.records.bz2"), "streamlz4": ("streamgz", "out.records.lz4"), "streamzst": ("streamgz", "out.records.zst"),
-               "jsongz": ("json", "jsonfile://out.json.gz"), "jsonl": ("json", "out.jsonl")}
+               "jsonl": ("json", "out.jsonl")}     # (compressed JSON lines are not supported by the library: every write raises)
 
 
 def D():
